@@ -91,9 +91,9 @@ class Chop:
             if {"count", "total_expansion", "c2c_expansion", "start_size", "end_size"}.issubset(calculated):
                 self.results["count"] = int(self.results["count"])
 
-                if self.c2c_expansion is None and data["count"] > 1:
-                    # the ratio that goes with the returned count and total expansion (it can have been
-                    # derived from a requested size, which the rounded count does not reproduce)
+                if self.total_expansion is not None and self.c2c_expansion is None and data["count"] > 1:
+                    # a given total expansion is kept: the ratio that goes with it and the returned count
+                    # (it can have been derived from the requested size, which the rounded count does not reproduce)
                     data["c2c_expansion"] = data["total_expansion"] ** (1 / (data["count"] - 1))
 
                 return data["count"], data["total_expansion"]
